@@ -321,6 +321,42 @@ func (fr *Frame) goStmt(x *ssa.Go) {
 	ex := fr.ex
 	// site hook: contract may attach "at go#n assert E" clauses; effect of the goroutine itself is not modelled here
 	fr.siteClauses(x, &x.Call, "go", nil, nil)
+	// the spawned function's preconditions must hold at the go statement (they must be stable under interference)
+	if fn := x.Call.StaticCallee(); fn != nil {
+		ct := ex.S.Contracts[canonNameAny(fn)]
+		if ct == nil {
+			ct = ex.S.Contracts[shortName(canonNameAny(fn))]
+		}
+		if ct != nil {
+			var args []Val
+			for _, a := range x.Call.Args {
+				args = append(args, fr.val(a))
+			}
+			ci := calleeInfo{display: canonNameAny(fn), fn: fn, sig: fn.Signature}
+			names := fr.bindParams(ci, ct, args)
+			if mc, ok := x.Call.Value.(*ssa.MakeClosure); ok {
+				for i, fv := range fn.FreeVars {
+					if i < len(mc.Bindings) {
+						names[fv.Name()] = fr.val(mc.Bindings[i])
+					}
+				}
+			}
+			for i, rq := range ct.Requires {
+				if containsStr(modelsIn(rq.E, ex.S), "held") {
+					continue // lock ownership is per thread: the new goroutine holds no lock
+				}
+				ec := fr.evalCtx(fr.curMem, fr.curMem)
+				ec.names = names
+				ec.goal = true
+				g, err := ec.tryBool(rq.E)
+				if err != nil {
+					ex.failOb("contract-typechecks", "go-pre", err.Error()+" in requires "+rq.Src, x.Pos())
+					continue
+				}
+				ex.oblige("pre", fmt.Sprintf("go-%s.%d", lastSeg(ci.display), i+1), g, fr.curReach, "precondition of the spawned goroutine: "+rq.Src, x.Pos(), rq.Prop)
+			}
+		}
+	}
 	ex.note("go statement in %s: goroutine body verified separately (if under contract); no effect assumed at spawn", fr.fn.Name())
 }
 
